@@ -3,3 +3,5 @@ import Cstl.Base.Driver
 import Cstl.SList.Model
 import Cstl.SList.Props
 import Cstl.DList.Props
+import Cstl.SList.Tie
+import Cstl.DList.Tie
